@@ -23,6 +23,30 @@ reg("C03", "exploration", "event-log reference monitor with the feature order re
     "independent reference evaluated on the order actually drawn (decoded from callback traffic).",
     "Same trusted base as C02; imputers under test obey C06.", "DESIGN.md 3/C03")
 
+STAT = "exact two-sided binomial cell tests over many independent executions, Bonferroni-split false-alarm budget 1e-9 per run"
+reg("C07", "exploration", "structural invariant after every update; scripted global RNG with DFS over all random outcomes",
+    "Invariant (sub-multiset by identity, count, target alignment, order) asserted after every update, on every outcome of the "
+    "library's random draws for small capacities (scripted generator, exhaustive over integer draws and a float palette) and on long seeded streams.",
+    "Exhaustive only for the bounded spaces listed in the evidence; float draws are enumerated over a palette incl. thresholds.", "DESIGN.md 3/C07")
+reg("C08", "exploration", "statistical monitor: " + STAT,
+    "Inclusion, k-subset, pair and arrival-bucket frequencies of many independent reservoirs tested against the uniform law; a deviation "
+    "of the size written to the evidence (about 0.02 quick) is detected, smaller biases can be missed.",
+    "Executions independent; reads only get_data(); false alarm probability <= 1e-9 per run.", "DESIGN.md 3/C08")
+reg("C09", "exploration", "statistical monitor: " + STAT + "; deterministic p=1 / threshold clauses on scripted paths",
+    "Retention law, acceptance probability and uniform slot replacement tested statistically; p=1 always-store and the acceptance "
+    "threshold asserted deterministically with a scripted generator.",
+    "As C08.", "DESIGN.md 3/C09")
+reg("C10", "exploration", "shipped update code executed on exact rationals vs closed forms; line-path recorder",
+    "Not the inductive proof named in the quantifier (outside runtime monitoring): the shipped recurrences run on exact rationals and are "
+    "compared with == to the closed forms after every update of streams in 10 patterns up to length 256 (4096 thorough); linearity, range and hull clauses asserted; single line path recorded.",
+    "Fraction arithmetic trusted; agreement is per tested length (Schwartz-Zippel argument in DESIGN).", "DESIGN.md 3/C10")
+reg("C11", "exploration", "window reference monitor after every update",
+    "mean/var/std compared after every update with exact statistics of the last min(n,k) values for lengths beyond 5k; construction on this NumPy included.",
+    "No NaN inputs.", "DESIGN.md 3/C11")
+reg("C12", "exploration", "per-key reference monitor over key-set histories x numeric types; NumPy FP-exception recorder; differential twins",
+    "get(), N, key persistence, independence and the normalised view (sum 1, ratios, zero-sum -> zeros, no NaN/inf, no FP exception) checked after every update of random key-set histories over six value types and both base trackers.",
+    "Finite inputs; exact comparison in Q mode, tolerance in float modes.", "DESIGN.md 3/C12")
+
 def main():
     props = [json.loads(l) for l in open(os.path.join(HERE, "properties.jsonl"))]
     checks, na = [], []
